@@ -200,6 +200,9 @@ func (hs *serverHandshakeStateTLS13) processClientHello() error {
 	c.cipherSuite = hs.suite.id
 	hs.hello.cipherSuite = hs.suite.id
 	hs.transcript = hs.suite.hash.New()
+	if err := verifHookServerCookieHRR13(hs); err != nil {
+		return err
+	}
 
 	// First, if a post-quantum key exchange is available, use one. See
 	// draft-ietf-tls-key-share-prediction-01, Section 4 for why this must be
@@ -662,6 +665,7 @@ func (hs *serverHandshakeStateTLS13) doHelloRetryRequest(selectedGroup CurveID) 
 		return nil, errors.New("tls: client indicated early data in second ClientHello")
 	}
 
+	verifHookSecondClientHello13(c, clientHello)
 	if illegalClientHelloChange(clientHello, hs.clientHello) {
 		c.sendAlert(alertIllegalParameter)
 		return nil, errors.New("tls: client illegally modified second ClientHello")
